@@ -170,3 +170,26 @@ def pieces_of_string_buffer(an, local):
         else:
             out.append(("arg", "display", a, "String", {}))
     return out
+
+
+def flatten_pieces(an, pieces, depth=0):
+    """a `{}` argument that is itself a String assembled in a local buffer
+    (a helper like `prefixed_hex` spliced in) is replaced by the pieces of that
+    buffer; adjacent literals are merged"""
+    if pieces is None:
+        return None
+    out = []
+    for p in pieces:
+        sub = None
+        if p[0] == "arg" and p[1] == "display" and not p[4] and depth < 3:
+            v = strip(p[2])
+            if v.k == "mutated":
+                sub = pieces_of_string_buffer(an, v.a[1])
+                sub = flatten_pieces(an, sub, depth + 1) if sub is not None else None
+        for q in (sub if sub is not None else [p]):
+            if q[0] == "lit" and out and out[-1][0] == "lit":
+                out[-1] = ("lit", out[-1][1] + q[1])
+            else:
+                out.append(q)
+    return out
+
